@@ -10,7 +10,9 @@ package c05
 //	<label>:
 //	    <mnemonic> <operand>, <operand>          ; comment
 //	%macro <name> 0  …  %endmacro
-//	%meta cpdef <cp> romcode: <section>[, execmode: ha]
+//	%meta cpdef <cp> romcode: <section>[, romdata: <data section>][, execmode: ha]
+//	%section <name> .romdata  …  %endsection     with lines  <symbol> db <byte>[, <byte>]…   (docinstructions.md)
+//	    mov rX, rom:<symbol>   (ROM address of the symbol)      mov rY, rom:[rX]   (ROM cell at the address in rX)
 //	%meta ioatt <bond> cp: <cp|bm>, index:<k>, type:<input|output>      (two lines with the same <bond>)
 //	%meta bmdef global registersize:<n>[, iomode:sync]
 
@@ -69,6 +71,44 @@ type macroDef struct {
 	UsesOut    bool
 	Nested     bool
 	MaxReg     int
+	// Outer: the body jumps to this label, which every section that uses the macro defines itself (library
+	// style: `%macro again 0 / inc r0 / j loop / %endmacro`). Closer: the jump is unconditional and ends the
+	// body (the macro closes the main loop of a section); otherwise it is a `jz rK, <Outer>` forward skip.
+	Outer  string
+	Closer bool
+}
+
+// dataVar is a symbol every data section of the source declares, with at least Min cells.
+type dataVar struct {
+	Name string
+	Min  int
+}
+
+type dataLine struct {
+	Name  string
+	Exprs []string
+}
+
+type dataSrc struct {
+	Name  string
+	Lines []dataLine
+}
+
+// uni draws 0..n-1 from fair coins: rapid's integer generators favour small magnitudes, which would distort
+// the weights of the structural choices (harness/c12/gen.go).
+func uni(t *rapid.T, n int, label string) int {
+	k := 3
+	for (1 << uint(k-3)) < n {
+		k++
+	}
+	v := 0
+	for i := 0; i < k; i++ {
+		v <<= 1
+		if rapid.Bool().Draw(t, label) {
+			v |= 1
+		}
+	}
+	return v % n
 }
 
 type secGen struct {
@@ -91,6 +131,41 @@ type secGen struct {
 	// line-level `iomode:sync` metadata (precedence implemented by metadatainfer.go: line, section, global).
 	base   string
 	noLine bool // macro bodies: no line-level metadata
+	// vars: symbols of the data section(s) the CPs of this program get (nil = no ROM data)
+	vars []dataVar
+	// skippers: macros with a `jz rK, <Outer>` not yet used by this section
+	skippers []*macroDef
+}
+
+// emitReg sends register r to an output port.
+func (g *secGen) emitReg(r string) {
+	k := choosePort(g.t, g.maxOut, g.usedOut, "oport")
+	g.usedOut[k] = true
+	if g.explicit && rapid.Bool().Draw(g.t, "r2owaform") {
+		g.ins("r2owa", r, fmt.Sprintf("o%d", k))
+	} else {
+		g.lineIO()
+		g.ins("mov", fmt.Sprintf("o%d", k), r)
+	}
+	g.pads()
+}
+
+// romRead loads the ROM address of a data symbol, walks 0..Min-1 cells into it and reads the cell.
+func (g *secGen) romRead(andEmit bool) {
+	v := g.vars[uni(g.t, len(g.vars), "romvar")]
+	rp, rd := g.dreg("rp"), g.dreg("rd")
+	op := "mov"
+	if g.explicit && rapid.Bool().Draw(g.t, "rsetsymform") {
+		op = "rset"
+	}
+	g.ins(op, rp, "rom:"+v.Name)
+	for i, k := 0, uni(g.t, v.Min, "romwalk"); i < k; i++ {
+		g.ins("inc", rp)
+	}
+	g.ins("mov", rd, "rom:["+rp+"]")
+	if andEmit {
+		g.emitReg(rd)
+	}
 }
 
 // lineIO writes, in front of a pseudo-move, a label that carries line-level io mode metadata.
@@ -455,6 +530,24 @@ func (g *secGen) segment(depth int) {
 			g.useMacro(m)
 		})
 	}
+	if len(g.vars) > 0 {
+		add(4, func() { g.romRead(uni(t, 4, "romemit") != 0) })
+	}
+	if len(g.skippers) > 0 && g.budget > 0 {
+		// the conditional forward skip, its jump written in a macro: M ; body ; <Outer of M>:
+		add(4, func() {
+			i := uni(t, len(g.skippers), "skipper")
+			m := g.skippers[i]
+			g.skippers = append(append([]*macroDef(nil), g.skippers[:i]...), g.skippers[i+1:]...)
+			g.useMacro(m)
+			g.body(depth, false)
+			l := []string{m.Outer}
+			if uni(t, 3, "skipalias") == 0 {
+				l = append(l, g.newLabel())
+			}
+			g.place(l)
+		})
+	}
 	total := 0
 	for _, c := range cs {
 		total += c.w
@@ -487,8 +580,8 @@ type sectionSrc struct {
 }
 
 // genSection draws one program.
-func genSection(t *rapid.T, name string, rsize int, macros []*macroDef, o genOpts, allowIn bool, movLit int, force *macroDef, base string) *sectionSrc {
-	g := &secGen{t: t, rsize: rsize, movLit: movLit, base: base, labels: map[string]bool{}, usedIn: map[int]bool{}, usedOut: map[int]bool{}}
+func genSection(t *rapid.T, name string, rsize int, macros []*macroDef, o genOpts, allowIn bool, movLit int, force *macroDef, base string, vars []dataVar) *sectionSrc {
+	g := &secGen{t: t, rsize: rsize, movLit: movLit, base: base, vars: vars, labels: map[string]bool{}, usedIn: map[int]bool{}, usedOut: map[int]bool{}}
 	// register file: data registers first, loop counters last
 	switch rapid.IntRange(0, 3).Draw(t, "regshape") {
 	case 0:
@@ -500,11 +593,22 @@ func genSection(t *rapid.T, name string, rsize int, macros []*macroDef, o genOpt
 	default:
 		g.nData, g.ctr = 2, []int{2}
 	}
+	var closers []*macroDef
 	for _, m := range macros {
+		if m.Outer != "" {
+			g.labels[m.Outer] = true // reserved: the section defines it only where it uses the macro
+		}
 		// a macro that moves data to a port gets the section-level/global io mode (its lines carry no
 		// line-level metadata): usable only where that is sync
 		if m.MaxReg < g.nData && (base == "sync" || !m.UsesOut) {
-			g.macros = append(g.macros, m)
+			switch {
+			case m.Outer == "":
+				g.macros = append(g.macros, m)
+			case m.Closer:
+				closers = append(closers, m)
+			default:
+				g.skippers = append(g.skippers, m)
+			}
 		}
 	}
 	if allowIn {
@@ -539,10 +643,25 @@ func genSection(t *rapid.T, name string, rsize int, macros []*macroDef, o genOpt
 		}
 	}
 	forever := rapid.IntRange(0, 9).Draw(t, "forever") < 7 || force != nil
+	// closer: the jump that closes the main loop comes from a macro (`%macro again 0 / … / j loop / %endmacro`)
+	var closer *macroDef
+	if len(closers) > 0 && force == nil && uni(t, 8, "useclosers") != 0 {
+		forever = true
+		closer = closers[uni(t, len(closers), "closer")]
+	}
+	if len(g.vars) > 0 && uni(t, 3, "romprologue") == 0 {
+		g.romRead(true) // once, before the main loop
+	}
 	var top []string
 	if forever {
 		top = g.site()
+		if closer != nil {
+			top[uni(t, len(top), "closerlabel")] = closer.Outer
+		}
 		g.place(top)
+	}
+	if len(g.vars) > 0 && uni(t, 4, "romfirst") != 0 {
+		g.romRead(true)
 	}
 	if g.maxIn > 0 && rapid.IntRange(0, 3).Draw(t, "readfirst") != 0 {
 		g.input() // a program that has inputs reads one early, so that bonds between CPs carry values
@@ -564,7 +683,9 @@ func genSection(t *rapid.T, name string, rsize int, macros []*macroDef, o genOpt
 		g.alu(false)
 		g.useMacro(force)
 	}
-	if forever {
+	if closer != nil {
+		g.useMacro(closer)
+	} else if forever {
 		g.jump(g.pick(top))
 	} else {
 		idle := g.site()
@@ -680,6 +801,46 @@ func tidyMacroUses(items []srcItem, macros []*macroDef) []srcItem {
 		out = append(out, it)
 	}
 	return out
+}
+
+// genOuterMacros draws 1..2 macros whose body jumps to a label of the section that uses them.
+func genOuterMacros(t *rapid.T, rsize int, movLit int) []*macroDef {
+	names := []string{"again", "untilz", "close_1", "skipz", "Next"}
+	outer := []string{"loop", "reload", "mtop", "out_1", "Lm"}
+	n := 1 + uni(t, 2, "noutermacros")
+	off := uni(t, len(names), "outername")
+	var ms []*macroDef
+	for i := 0; i < n; i++ {
+		m := &macroDef{Name: names[(off+i)%len(names)], Outer: outer[(off+2*i+uni(t, 2, "outerlabel"))%len(outer)]}
+		for _, o := range ms {
+			if o.Outer == m.Outer {
+				m.Outer += "_b"
+			}
+		}
+		// the first one closes loops three times out of four, a second one is of the other kind
+		m.Closer = uni(t, 4, "closerkind") != 0
+		if i > 0 {
+			m.Closer = !ms[0].Closer
+		}
+		g := &secGen{t: t, rsize: rsize, movLit: movLit, base: "sync", noLine: true, labels: map[string]bool{}, usedIn: map[int]bool{}, usedOut: map[int]bool{}, maxOut: 1}
+		g.nData = 1 + uni(t, 2, "mregs")
+		m.MaxReg = g.nData - 1
+		g.explicit = rapid.Bool().Draw(t, "mexplicit")
+		for k, nk := 0, uni(t, 3, "outerpre"); k < nk; k++ {
+			g.alu(false)
+		}
+		if m.Closer {
+			g.jump(m.Outer)
+		} else {
+			g.ins("jz", g.dreg("rz"), m.Outer)
+			for k, nk := 0, uni(t, 2, "outerpost"); k < nk; k++ {
+				g.alu(false)
+			}
+		}
+		m.Items = g.items
+		ms = append(ms, m)
+	}
+	return ms
 }
 
 func genMacros(t *rapid.T, rsize int, o genOpts, movLit int) []*macroDef {
@@ -816,6 +977,94 @@ func sep(t *rapid.T) string {
 type cpSrc struct {
 	Name    string
 	Section *sectionSrc
+	Data    *dataSrc
+}
+
+func usesRom(items []srcItem) bool {
+	for _, it := range items {
+		for _, a := range it.Args {
+			if strings.HasPrefix(a, "rom:") {
+				return true
+			}
+		}
+	}
+	return false
+}
+
+// byteExpr writes one byte of a data section. The notations say how wide the number is (one byte); one
+// expression in eighty is a plain or 0d/0u decimal, which the assembler stores as 8 cells (counted as excluded).
+func byteExpr(t *rapid.T, v uint64) string {
+	switch uni(t, 240, "bytenotation") % 61 {
+	case 60:
+		return fmt.Sprintf("%s%d", rapid.SampledFrom([]string{"", "0d", "0u"}).Draw(t, "unsized"), v)
+	case 1, 2, 3, 4, 5, 6, 7, 8:
+		return fmt.Sprintf("0b%b", v)
+	case 9, 10, 11, 12:
+		return fmt.Sprintf("0b<8>%b", v)
+	case 13, 14, 15, 16:
+		return fmt.Sprintf("0x<8>%x", v)
+	case 17, 18, 19, 20, 21, 22, 23, 24:
+		return fmt.Sprintf("0x%x", v)
+	case 25, 26, 27, 28, 29, 30, 31, 32:
+		return fmt.Sprintf("0x%02X", v)
+	}
+	return fmt.Sprintf("0x%02x", v)
+}
+
+// genDatas draws 1..3 data sections. Each declares every symbol of vars with at least its Min cells; order,
+// padding symbols, lengths and values are free, or (one time in three) copied in shape from the first section.
+func genDatas(t *rapid.T, vars []dataVar) []*dataSrc {
+	names := []string{"vars", "dvals", "tbl_a", "consts", "D2", "kdata"}
+	pads := []string{"pad", "fill_0", "_gap", "Z9"}
+	n := 1 + uni(t, 3, "ndatas")
+	off := uni(t, len(names), "dataname")
+	val := func() uint64 {
+		switch uni(t, 4, "byteclass") {
+		case 0:
+			return uint64(uni(t, 4, "bytelow"))
+		case 1:
+			return 255 - uint64(uni(t, 4, "bytehigh"))
+		}
+		return uint64(uni(t, 256, "byte"))
+	}
+	var ds []*dataSrc
+	for i := 0; i < n; i++ {
+		d := &dataSrc{Name: names[(off+i)%len(names)]}
+		if i > 0 && uni(t, 3, "sameshape") == 0 {
+			for _, l := range ds[0].Lines {
+				nl := dataLine{Name: l.Name}
+				for range l.Exprs {
+					nl.Exprs = append(nl.Exprs, byteExpr(t, val()))
+				}
+				d.Lines = append(d.Lines, nl)
+			}
+			ds = append(ds, d)
+			continue
+		}
+		order := rapid.Permutation(seqInts(len(vars))).Draw(t, "varorder")
+		np := 0
+		for _, vi := range order {
+			if np < len(pads) && uni(t, 4, "padbefore") == 0 {
+				l := dataLine{Name: pads[np]}
+				np++
+				for k, nk := 0, 1+uni(t, 4, "padlen"); k < nk; k++ {
+					l.Exprs = append(l.Exprs, byteExpr(t, val()))
+				}
+				d.Lines = append(d.Lines, l)
+			}
+			l := dataLine{Name: vars[vi].Name}
+			cells := vars[vi].Min
+			if uni(t, 3, "extracells") == 0 {
+				cells += 1 + uni(t, 2, "nextra")
+			}
+			for k := 0; k < cells; k++ {
+				l.Exprs = append(l.Exprs, byteExpr(t, val()))
+			}
+			d.Lines = append(d.Lines, l)
+		}
+		ds = append(ds, d)
+	}
+	return ds
 }
 
 // genSource draws a whole source file and its environment.
@@ -835,6 +1084,30 @@ func genSource(o genOpts) func(t *rapid.T) Case {
 			}
 		}
 		macros := genMacros(t, rsize, o, movLit)
+		// two families of shapes on top of the common grammar (the known-defect campaigns keep the plain one):
+		// data — romdata sections, CPs that run one text on the same or on different data; outer — macros that
+		// jump to a label of the section using them, used by one or several sections
+		dataMode, outerMode := false, false
+		if !o.Leak && o.Entry != 1 {
+			switch uni(t, 12, "family") {
+			case 5, 6, 7:
+				dataMode = true
+			case 8, 9:
+				outerMode = true
+			case 10, 11:
+				dataMode, outerMode = true, true
+			}
+		}
+		if outerMode {
+			macros = append(macros, genOuterMacros(t, rsize, movLit)...)
+		}
+		var vars []dataVar
+		if dataMode {
+			names := rapid.Permutation([]string{"k", "m", "tab", "coef", "x0", "lut", "seed_1", "Kc"}).Draw(t, "varnames")
+			for i, n := 0, 1+uni(t, 3, "nvars"); i < n; i++ {
+				vars = append(vars, dataVar{Name: names[i], Min: 1 + uni(t, 3, "varmin")})
+			}
+		}
 		var force *macroDef
 		if o.Leak {
 			g := &secGen{t: t, rsize: rsize, movLit: movLit, base: "sync", noLine: true, nData: 1, maxOut: 1, labels: map[string]bool{}, usedIn: map[int]bool{}, usedOut: map[int]bool{}}
@@ -854,6 +1127,24 @@ func genSource(o genOpts) func(t *rapid.T) Case {
 		}
 		if o.Leak {
 			nSec = 2
+		}
+		// the new families are about several CPs: one text run by several CPs (data), one macro used by
+		// several texts (outer)
+		switch {
+		case dataMode && maxCPs >= 2 && uni(t, 2, "datashare") == 0:
+			if nCP < 2 {
+				nCP = 2
+			}
+			if uni(t, 4, "onetext") != 0 {
+				nSec = 1
+			}
+		case outerMode && maxCPs >= 2 && uni(t, 4, "outerspread") != 0:
+			if nSec < 2 {
+				nSec = 2
+			}
+			if nCP < nSec {
+				nCP = nSec
+			}
 		}
 		// io mode metadata: at global level (none/sync/async), at section level (none/sync/async, the same as or
 		// different from the global one) and, per pseudo-move, at line level. metadatainfer.go resolves line, then
@@ -875,12 +1166,16 @@ func genSource(o genOpts) func(t *rapid.T) Case {
 			if base == "" {
 				base = global
 			}
-			s := genSection(t, name, rsize, macros, o, true, movLit, force, base)
+			s := genSection(t, name, rsize, macros, o, true, movLit, force, base, vars)
 			s.IOMode = secIO
 			if o.Leak && i == 1 {
 				s.IOMode = "async"
 			}
 			secs = append(secs, s)
+		}
+		var datas []*dataSrc
+		if dataMode {
+			datas = genDatas(t, vars)
 		}
 		cpNames := []string{"cpu0", "cpu1", "cpu2", "main", "p_a", "worker", "X1", "c"}
 		var cps []cpSrc
@@ -904,7 +1199,28 @@ func genSource(o genOpts) func(t *rapid.T) Case {
 				}
 			}
 			name := rapid.SampledFrom(free).Draw(t, "cpname")
-			cps = append(cps, cpSrc{Name: name, Section: secs[si]})
+			cp := cpSrc{Name: name, Section: secs[si]}
+			if len(datas) > 0 && (usesRom(secs[si].Items) || uni(t, 2, "dataunused") == 0) {
+				// CPs that run the same text mostly get data sections of their own
+				var fresh []*dataSrc
+				for _, d := range datas {
+					taken := false
+					for _, o := range cps {
+						if o.Section == secs[si] && o.Data == d {
+							taken = true
+						}
+					}
+					if !taken {
+						fresh = append(fresh, d)
+					}
+				}
+				if len(fresh) > 0 && uni(t, 4, "owndata") != 0 {
+					cp.Data = fresh[uni(t, len(fresh), "cpdata")]
+				} else {
+					cp.Data = datas[uni(t, len(datas), "cpdata")]
+				}
+			}
+			cps = append(cps, cp)
 		}
 		// a section no CP runs may be anything the assembler accepts: give it the other io mode now and then
 		for i, s := range secs {
@@ -1019,14 +1335,30 @@ func genSource(o genOpts) func(t *rapid.T) Case {
 				r.line("%endsection")
 			})
 		}
+		for _, d := range datas {
+			d := d
+			blockChunks = append(blockChunks, func() {
+				r.line("%section" + sep(t) + d.Name + sep(t) + ".romdata")
+				for _, l := range d.Lines {
+					r.line(r.ws(0) + l.Name + r.ws(1) + "db" + r.ws(1) + strings.Join(l.Exprs, r.ws(0)+","+r.ws(0)))
+				}
+				r.line("%endsection")
+			})
+		}
 		for _, cp := range cps {
 			cp := cp
 			metaChunks = append(metaChunks, func() {
-				s := "%meta" + r.ws(1) + "cpdef" + r.ws(1) + cp.Name + r.ws(1) + "romcode:" + r.ws(0) + cp.Section.Name
-				if rapid.IntRange(0, 3).Draw(t, "execmode") == 0 {
-					s += r.ws(0) + "," + r.ws(0) + "execmode:" + r.ws(0) + "ha"
+				kv := []string{"romcode:" + r.ws(0) + cp.Section.Name}
+				if cp.Data != nil {
+					kv = append(kv, "romdata:"+r.ws(0)+cp.Data.Name)
+					if rapid.Bool().Draw(t, "cpdeforder") {
+						kv[0], kv[1] = kv[1], kv[0]
+					}
 				}
-				r.line(s)
+				if rapid.IntRange(0, 3).Draw(t, "execmode") == 0 {
+					kv = append(kv, "execmode:"+r.ws(0)+"ha")
+				}
+				r.line("%meta" + r.ws(1) + "cpdef" + r.ws(1) + cp.Name + r.ws(1) + strings.Join(kv, r.ws(0)+","+r.ws(0)))
 			})
 		}
 		attLine := func(a att) string {
